@@ -118,6 +118,27 @@ def check_case(case, stats=None):
                 viol.append({
                     'kind': 'sub-execution-not-paused-after-pause',
                     'detail': {'wf': dw['name'], 'state': dw['state']}})
+    # (a') whatever paused an execution (the command, the cascade from a
+    # paused child, a pause command of the definition): the unfinished
+    # sub-executions that exist at that moment are paused with it
+    prev_a = None
+    for step, label, snap in h.snaps:
+        if prev_a is not None:
+            for wid, w in snap['wf'].items():
+                p = prev_a['wf'].get(wid)
+                if p is None or p['state'] == 'PAUSED' \
+                        or w['state'] != 'PAUSED':
+                    continue
+                for d in _descendants(snap, wid):
+                    dw = snap['wf'][d]
+                    if dw['state'] not in FINAL and dw['state'] != 'PAUSED':
+                        viol.append({
+                            'kind': 'sub-execution-running-below-execution-'
+                                    'that-just-paused',
+                            'detail': {'wf': w['name'], 'sub': dw['name'],
+                                       'sub_state': dw['state'],
+                                       'step': step, 'event': label}})
+        prev_a = snap
     # (b) no task created inside a PAUSED execution
     prev = None
     pause_open = {}   # wf id -> step of pause
@@ -171,6 +192,16 @@ def check_case(case, stats=None):
     if retrig:
         if stats:
             stats.counters['known_shape_join_retrigger_seen'] += 1
+        did_pause = False
+    wi_sub = any(t.get('with-items') and t.get('workflow')
+                 for p_ in [case['prog']] + list(case['prog'].get('subs')
+                                                 or [])
+                 for t in p_['tasks'].values())
+    if wi_sub:
+        # known finding withitems-subwf-pause: per-child resume; the
+        # differential is not applied (counted), clauses (a), (a'), (b) are
+        if stats:
+            stats.counters['known_shape_withitems_subwf_no_differential'] += 1
         did_pause = False
     root = final['wf'].get(res.wf_ex_id)
     if did_pause and not viol and root is not None:
@@ -292,6 +323,37 @@ def gen_chain(D, G):
     return prog, outc
 
 
+def gen_wi_children(D, G):
+    """One task owns several sub-workflow executions (with-items over a
+    workflow, chains of 2-3 tasks); the operator pauses one of the children
+    while its siblings are in flight."""
+    n = D.int(2, 4)
+
+    def T(**kw):
+        t = G.new_task()
+        t['form'] = {'action': 'noop'}
+        t.update(kw)
+        return t
+    root = {'name': 'wf', 'type': 'direct', 'input': {}, 'defaults': None,
+            'output': None, 'lang': 'yaql', 'order': ['w', 'after'],
+            'tasks': {'w': T(workflow='sub0'), 'after': T()}}
+    root['tasks']['w']['with-items'] = 'i in <% [' + ', '.join(
+        str(i) for i in range(n)) + '] %>'
+    if D.bool(0.3):
+        root['tasks']['w']['concurrency'] = D.int(2, n)
+    root['tasks']['w']['on-success'] = [{'to': 'after', 'guard': None}]
+    k = D.int(2, 3)
+    names = ['s0_%d' % i for i in range(k)]
+    sub = {'name': 'sub0', 'type': 'direct', 'input': {}, 'defaults': None,
+           'output': None, 'lang': 'yaql', 'order': names,
+           'tasks': {nm: T() for nm in names}}
+    for a, b in zip(names, names[1:]):
+        sub['tasks'][a]['on-success'] = [{'to': b, 'guard': None}]
+    root['subs'] = [sub]
+    outc = {nm: [['ok', 'a']] for nm in ['w', 'after'] + names}
+    return root, outc
+
+
 def _self_pausing(prog):
     for p in [prog] + list(prog.get('subs') or []):
         for t in p['tasks'].values():
@@ -314,8 +376,18 @@ def strategy(max_tasks=6):
         D = HDraw(draw)
         F = G.feats(with_items=True, async_actions=False, cycles=False,
                     expr_failures=False, partial_joins=False,
-                    state_commands=False, wi_subwf=False,
+                    state_commands=False, wi_subwf=D.bool(0.2),
                     pause_cmd=D.bool(0.3))
+        if D.bool(0.12):
+            prog, outc = gen_wi_children(D, G)
+            plan = [{'at': D.int(3, 16), 'cmd': 'pause',
+                     'sel': D.choice([1, 2, 2, 3])}]
+            if D.bool(0.5):
+                plan.append({'at': D.int(17, 40), 'cmd': 'resume',
+                             'sel': D.int(0, 3)})
+            return {'prog': prog, 'outcomes': outc, 'input': {},
+                    'sched': enginerun.gen_schedule(D, max_devs=4),
+                    'salt': D.int(0, 20), 'plan': plan}
         if D.bool(0.2):
             # `fail` / `succeed` commands only where nothing runs in
             # parallel (a forced completion racing another branch is order
